@@ -550,6 +550,58 @@ theorem length_framed_body_is_take_n (hI : ChunkInvariant I) (c : Coding) (n : N
 example : lengthPieces 5 [[1, 2, 3], [4, 5, 6, 7]] = [[1, 2, 3], [4, 5]] := by decide
 example : readBody toy .identity (lengthPieces 5 [[1, 2, 3], [4, 5, 6, 7]]) = .ok [1, 2, 3, 4, 5] := by decide
 
+/-- **The decoding decision depends on Content-Encoding alone**: Content-Type
+(`application/gzip`, …), Content-Disposition and the URL (`….gz`) are irrelevant. -/
+theorem decoding_depends_on_content_encoding_only (d₁ d₂ : Dec I) (r₁ r₂ : ResponseInfo)
+    (h : r₁.contentEncoding = r₂.contentEncoding) :
+    setupFromResponse I d₁ r₁ = setupFromResponse I d₂ r₂ := by
+  simp [setupFromResponse, setupDecompressor, h]
+
+/-- **Frame property of decoder objects.**  With any number of decoder objects
+alive at once and any interleaving of calls (objects abandoned after 0, 1, 2
+bytes, mid-stream, after an error, without flush, …), the results object `i`
+produces are exactly those it produces on its own over the calls *it*
+received: what other decoder objects were fed or left behind cannot matter. -/
+theorem frame_property (step : Dec I → HOp → Dec I × Except PyExc Bytes)
+    (pool : List (Dec I)) (sched : List (Nat × HOp)) (i : Nat) (d : Dec I) (hd : pool[i]? = some d) :
+    ((runSchedule I step pool sched).filter (fun x => x.1 == i)).map (·.2) =
+      (runAlone I step d ((sched.filter (fun x => x.1 == i)).map (·.2))).2 := by
+  induction sched generalizing pool d with
+  | nil => simp [runSchedule, runAlone]
+  | cons e rest ih =>
+    obtain ⟨j, op⟩ := e
+    unfold runSchedule
+    cases hj : pool[j]? with
+    | none =>
+      have hne : j ≠ i := by
+        intro h; subst h; rw [hd] at hj; cases hj
+      have hb : (j == i) = false := by simpa using hne
+      simp only [List.filter_cons, hb]
+      exact ih pool d hd
+    | some dj =>
+      by_cases hji : j = i
+      · subst hji
+        have : dj = d := by rw [hd] at hj; cases hj; rfl
+        subst this
+        have hlt : j < pool.length := by
+          rcases Nat.lt_or_ge j pool.length with h | h
+          · exact h
+          · rw [List.getElem?_eq_none h] at hd; cases hd
+        have hset : (pool.set j (step dj op).1)[j]? = some (step dj op).1 := by
+          simp [hlt]
+        simp only [List.filter_cons, beq_self_eq_true, if_true, List.map_cons, runAlone]
+        rw [ih _ _ hset]
+      · have hb : (j == i) = false := by simpa using hji
+        have hset : (pool.set j (step dj op).1)[i]? = some d := by
+          rw [List.getElem?_set_ne hji]; exact hd
+        simp only [List.filter_cons, hb]
+        exact ih _ _ hset
+
+/-- two deflate decoders alive at once; the first is abandoned holding one byte (seeded change C19-15) -/
+example : runSchedule toy (Dec.step toy) [setup toy .deflate, setup toy .deflate]
+    [(0, .feed [0x78]), (1, .feed [0x78, 0x9c, 1, 65, 0]), (1, .flush)]
+    = [(0, .ok []), (1, .ok []), (1, .ok [65])] := by decide
+
 /-- **The web layer never requests raw mode**, whatever timeout is configured. -/
 theorem web_never_raw (keepFile : Bool) (timeout : Option Nat) :
     (webDownloadArgs keepFile timeout).raw = false := rfl
